@@ -454,6 +454,97 @@ fn longp<T: Ingest>(name: &str, alpha: Vec<T::Item>) -> Box<dyn Check> {
     Box::new(LongPieces::<T> { alpha_name: name.into(), alpha })
 }
 
+/// "However the estimator was built": every word, every split into a prefix (built by add loop
+/// or collect) and a rest fed through extend by value / by reference, judged by the *value*
+/// oracle of the owning property (C08, C09) rather than by comparison with the add loop.
+pub struct ExtendSplit<T: Ingest> {
+    pub prop: &'static str,
+    pub alpha_name: String,
+    pub alpha: Vec<T::Item>,
+    pub max_len: usize,
+    pub judge: super::interval::Judge<T>,
+}
+impl<T: Ingest> ExtendSplit<T> {
+    fn build(w: &[T::Item], k: usize, prefix_collect: bool, by_ref: bool) -> Result<T, String> {
+        let w = w.to_vec();
+        guarded(move || {
+            let mut e = if prefix_collect { T::collect_refs(&w[..k]) } else { reference::<T>(&w[..k]) };
+            let done = if by_ref { e.extend_refs(&w[k..]) } else { e.extend_vals(&w[k..]) };
+            if !done {
+                for i in &w[k..] {
+                    e.add_item(*i);
+                }
+            }
+            e
+        })
+    }
+}
+impl<T: Ingest> Check for ExtendSplit<T> {
+    fn name(&self) -> String {
+        format!("{}/built-by-extend/{}/{}", self.prop, T::NAME, self.alpha_name)
+    }
+    fn run(&self) -> Stats {
+        let t0 = std::time::Instant::now();
+        let mut st = Stats { spec: self.name(), depth_requested: self.max_len, depth_completed: self.max_len, ..Default::default() };
+        let mut found: std::collections::BTreeMap<String, Found> = Default::default();
+        for l in 1..=self.max_len {
+            let ws = words(&self.alpha, l);
+            let res: Vec<Vec<(Violation, Value)>> = ws
+                .par_iter()
+                .map(|w| {
+                    let mut out = Vec::new();
+                    for k in 0..=w.len() {
+                        for pc in [false, true] {
+                            for br in [false, true] {
+                                let path = json!([{"word": w.iter().map(|i| T::item_json(i)).collect::<Vec<_>>()}, {"split": k, "prefix_by_collect": pc, "extend_by_ref": br}]);
+                                match Self::build(w, k, pc, br) {
+                                    Err(m) => out.push((Violation { sig: format!("{}.extend:panic", T::NAME), detail: m }, path)),
+                                    Ok(e) => {
+                                        for mut v in (self.judge)(w, &e.observe_()) {
+                                            v.sig = format!("{}:built-by-extend", v.sig);
+                                            out.push((v, path.clone()));
+                                        }
+                                    }
+                                }
+                            }
+                        }
+                    }
+                    out
+                })
+                .collect();
+            st.states += ws.len() as u64;
+            st.transitions += ws.len() as u64 * (l as u64 + 1) * 4;
+            st.frontier_sizes.push(ws.len() as u64);
+            if l == self.max_len {
+                st.maximal = ws.len() as u64 * (l as u64 + 1) * 4;
+                st.samples.push(json!({"spec": self.name(), "history": [{"word": ws[ws.len() / 2].iter().map(|i| T::item_json(i)).collect::<Vec<_>>()}, {"split": l / 2, "prefix_by_collect": true, "extend_by_ref": true}]}));
+            }
+            for r in res {
+                for (v, p) in r {
+                    let e = found.entry(v.sig.clone()).or_insert(Found { sig: v.sig, detail: v.detail, path: p.as_array().unwrap().clone(), count: 0 });
+                    e.count += 1;
+                }
+            }
+        }
+        st.nontrivial_states = st.states;
+        st.outcomes = st.states;
+        st.found = found.into_values().collect();
+        st.wall_s = t0.elapsed().as_secs_f64();
+        st
+    }
+    fn replay(&self, path: &[Value]) -> Result<Vec<Violation>, String> {
+        let w: Vec<T::Item> = path.first().and_then(|v| v.get("word")).and_then(|w| w.as_array()).ok_or("no word")?.iter().map(|i| T::item_parse(i)).collect::<Option<Vec<_>>>().ok_or("bad word")?;
+        let o = path.get(1).ok_or("no split")?;
+        let k = o.get("split").and_then(|k| k.as_u64()).ok_or("no split")? as usize;
+        let pc = o.get("prefix_by_collect").and_then(|b| b.as_bool()).unwrap_or(false);
+        let br = o.get("extend_by_ref").and_then(|b| b.as_bool()).unwrap_or(false);
+        match Self::build(&w, k, pc, br) {
+            Err(m) => Ok(vec![Violation { sig: format!("{}.extend:panic", T::NAME), detail: m }]),
+            Ok(e) => Ok((self.judge)(&w, &e.observe_())),
+        }
+    }
+}
+
 fn ing<T: Ingest>(name: &str, alpha: Vec<T::Item>, max_len: usize) -> Box<dyn Check> {
     Box::new(Bfs::new(IngestSpec::<T> { alpha_name: name.into(), alpha, max_len, max_piece: 3 }, max_len + 2))
 }
@@ -492,6 +583,9 @@ pub fn plan(tier: Tier) -> Plan {
     checks.push(ing::<Covariance>("corr3", vec![(1., 5.), (2., 4.1), (-3., 0.1)], l));
     checks.push(ing::<Covariance>("off3", vec![(1e9 - 3., -1e6 + 0.5), (1e9 + 4., -1e6 - 2.), (1e9 + 13., -1e6)], l));
     checks.push(cross(IngestSpec::<U<Variance>> { alpha_name: "tri".into(), alpha: sub_alphabet("tri", 3), max_len: 4, max_piece: 3 }, 6));
+    for p in [0., 0.3, 0.5, 1.] {
+        checks.push(super::quantile::qcheck(super::quantile::Mode::C20, p, "qties", if q { 7 } else { 9 }, 0.0));
+    }
     for which in ["CatMinMax", "CatVarQ", "Cat3", "Cat4"] {
         for a in ["tri", "qties", "off9"] {
             checks.push(Box::new(CatCheck { which, alpha: a, max_len: if q { 7 } else { 9 } }));
